@@ -4,6 +4,7 @@
 root, then the repository's test suite on the mutants no check alarms on, and read what survives both."""
 import os, re, sys, json, subprocess, tempfile, shutil
 OUT = sys.argv[1]
+MODE2 = len(sys.argv) > 2 and sys.argv[2] == 'mode2'      # second operator set: conditions, `?`, argument order
 FILES = ['cadence/src/builder.rs', 'cadence/src/client.rs', 'cadence/src/io.rs', 'cadence/src/types.rs', 'cadence/src/sinks/core.rs',
          'cadence/src/sinks/queuing.rs', 'cadence/src/sinks/udp.rs', 'cadence/src/sinks/unix.rs', 'cadence/src/sinks/spy.rs',
          'cadence-macros/src/state.rs', 'cadence-macros/src/macros.rs']
@@ -88,6 +89,54 @@ def main():
                 if v > 0:
                     muts.append((m.start(), m.group(1), str(v - 1)))
             s = code.strip()
+            if MODE2:
+                muts = []
+                ind = l[:len(l) - len(l.lstrip())]
+                m_ = re.match(r'^(\s*)(\}? ?else )?if (?!let )(.+) \{\s*$', code)
+                if m_:
+                    pre, cond = (m_.group(1) + (m_.group(2) or '')), m_.group(3)
+                    muts.append(('L', pre + 'if !(' + cond + ') {', 'condition negated'))
+                    muts.append(('L', pre + 'if true {', 'condition -> true'))
+                    muts.append(('L', pre + 'if false {', 'condition -> false'))
+                    for op in (' && ', ' || '):
+                        if op in cond and cond.count(op) == 1:
+                            a_, b_ = cond.split(op)
+                            muts.append(('L', pre + 'if ' + a_ + ' {', 'right conjunct dropped'))
+                            muts.append(('L', pre + 'if ' + b_ + ' {', 'left conjunct dropped'))
+                m_ = re.match(r'^(\s*)(.+)\?;\s*$', code)
+                if m_ and not m_.group(2).lstrip().startswith('let '):
+                    muts.append(('L', m_.group(1) + 'let _ = ' + m_.group(2) + ';', '`?` dropped (error ignored)'))
+                m_ = re.match(r'^(\s*)let (\w+) = (.+)\?;\s*$', code)
+                if m_:
+                    muts.append(('L', m_.group(1) + 'let ' + m_.group(2) + ' = ' + m_.group(3) + '.unwrap_or_default();', '`?` replaced by unwrap_or_default'))
+                for m2 in re.finditer(r'(\b[\w:.]+)\(([\w.&*]+), ([\w.&*]+)\)', code):
+                    if m2.group(2) != m2.group(3):
+                        muts.append(('L', code[:m2.start()] + '%s(%s, %s)' % (m2.group(1), m2.group(3), m2.group(2)) + code[m2.end():], 'two arguments swapped'))
+                m_ = re.match(r'^(\s*)(Ok|Err|Some)\((.+)\)(,?)\s*$', code)
+                if m_ and m_.group(2) == 'Ok':
+                    muts.append(('L', m_.group(1) + 'Ok(Default::default())' + m_.group(4), 'Ok payload -> default'))
+                m_ = re.match(r'^(\s*)(.+) => (.+),\s*$', code)
+                if m_ and '=> {' not in code and m_.group(3).strip() not in ('()',):
+                    pass
+                for kind_, nl_, what_ in muts:
+                    if nl_ == l:
+                        continue
+                    new = lines[:i] + [nl_] + lines[i + 1:]
+                    desc = 'line %d: %s: %s' % (i + 1, what_, l.strip())
+                    k += 1
+                    d = os.path.join(OUT, tag, '%04d' % k)
+                    os.makedirs(d, exist_ok=True)
+                    tmp = tempfile.mkdtemp(prefix='mut_')
+                    os.makedirs(os.path.join(tmp, 'a', os.path.dirname(f)))
+                    os.makedirs(os.path.join(tmp, 'b', os.path.dirname(f)))
+                    open(os.path.join(tmp, 'a', f), 'w').write(text)
+                    open(os.path.join(tmp, 'b', f), 'w').write('\n'.join(new))
+                    p = subprocess.run(['diff', '-u', os.path.join('a', f), os.path.join('b', f)], cwd=tmp, stdout=subprocess.PIPE)
+                    open(os.path.join(d, 'patch.diff'), 'wb').write(p.stdout)
+                    json.dump({'file': f, 'desc': desc}, open(os.path.join(d, 'meta.json'), 'w'))
+                    shutil.rmtree(tmp)
+                    n += 1
+                continue
             # statement deletion: a call statement on its own line
             if s.endswith(';') and not s.startswith(('let ', 'return', 'use ', 'pub ', 'const ', 'static ', 'type ', 'break', 'continue')) and ('(' in s or ' += ' in s or ' -= ' in s or s.startswith(('self.', '*'))):
                 muts.append((None, l, None))
